@@ -1024,6 +1024,20 @@ class Config:  # pylint: disable=too-many-instance-attributes
             self.__default_keyfile = KeyFile(Config.DEFAULT_CINCOKEY_FILEPATH)
         return self.__default_keyfile
 
+    def _adopt_keyfiles(self, other: "Config") -> None:
+        """
+        Take over the key files that were explicitly assigned to *other* and its sub-configs.
+        This is called when this (new) config replaces *other*, ie. when a nested tree is loaded.
+
+        :param other: the config being replaced
+        """
+        if other.__keyfile and not self.__keyfile:
+            self.__keyfile = other.__keyfile
+        for key, value in self._data.items():
+            current = other._data.get(key)
+            if isinstance(value, Config) and isinstance(current, Config):
+                value._adopt_keyfiles(current)
+
     def _get_field(self, key: str) -> Optional[BaseField]:
         """
         :returns: a field from the schema or the dynamically added field if the schema is dynamic.
@@ -1080,6 +1094,9 @@ class Config:  # pylint: disable=too-many-instance-attributes
             # both Schema and ConfigTypeField implement __call__, which will return a Config object
             cfg = field(self)
             cfg._key = key
+            current = self._data.get(key)
+            if isinstance(current, Config):
+                cfg._adopt_keyfiles(current)
             cfg.load_tree(value)  # load_tree will raise a ValidationError on error
             value = cfg
         else:
